@@ -151,6 +151,11 @@ vm_harness! {
             // second free, never-issued, negative or non-integer handle: reported, nothing changes
             assert!(r.is_err());
             assert!(mem_unchanged(&vm, pre.c0, pre.c1));
+            // "changes nothing" includes the allocator's free list: the next two buffers get distinct handles, neither
+            // of them the live buffer 0
+            let x = vm.manual_heap.alloc(1, 0).ok();
+            let y = vm.manual_heap.alloc(1, 0).ok();
+            assert!(x.is_some() && y.is_some() && x != y && x != Some(0) && y != Some(0));
         }
         kani::cover!(as_index(hv) == Some(0), "REQ legal free");
         kani::cover!(as_index(hv) == Some(1), "REQ double free");
@@ -358,3 +363,88 @@ macro_rules! c13_no_collect {
 c13_no_collect!(c13_o2_no_collect_depth1, 1);
 c13_no_collect!(c13_o2_no_collect_depth2, 2);
 c13_no_collect!(c13_o2_no_collect_depth64, 64);
+
+/// O1b: ExitNoGc while an outer region is still open (depth stays > 0) never starts a collection, even with the
+/// threshold crossed; leaving the outermost region may.
+#[kani::proof]
+#[kani::stub(std::hash::RandomState::new, stub_random_state)]
+#[kani::stub(std::fmt::format, stub_format)]
+#[kani::stub(crate::vm::VM::runtime_error, stub_runtime_error)]
+#[kani::stub(crate::vm::GlobalLayout::empty, stub_layout_empty)]
+#[kani::stub(crate::vm::VM::collect, stub_collect)]
+fn c13_o1b_exit_inner_region_no_collect() {
+    let (mut vm, _pre) = mem_vm(27, 64);
+    vm.heap.verif_set_gc_threshold(kani::any());
+    kani::assume(vm.heap.should_collect());
+    let d: usize = kani::any();
+    kani::assume(d >= 2); // an outer region stays open after this exit
+    vm.no_gc_depth = d;
+    unsafe { VERIF_COLLECTED = false; }
+    let mut out = None;
+    let r = vm.step_memory::<27>(&mut out);
+    assert!(r.is_ok() && vm.no_gc_depth == d - 1);
+    assert!(unsafe { !VERIF_COLLECTED });
+    kani::cover!(d == 2, "REQ leaving an inner region");
+    std::mem::forget(r);
+    std::mem::forget(vm);
+}
+
+/// O2b: maybe_collect starts a collection exactly when no region is open and the threshold is crossed
+#[kani::proof]
+#[kani::stub(std::hash::RandomState::new, stub_random_state)]
+#[kani::stub(crate::vm::GlobalLayout::empty, stub_layout_empty)]
+#[kani::stub(crate::vm::VM::collect, stub_collect)]
+fn c13_o2b_maybe_collect_iff() {
+    let mut vm = verif_vm();
+    vm.heap.alloc_string("ab");
+    vm.heap.verif_set_gc_threshold(kani::any());
+    let d: usize = kani::any();
+    vm.no_gc_depth = d;
+    unsafe { VERIF_COLLECTED = false; }
+    let crossed = vm.heap.should_collect();
+    vm.maybe_collect();
+    assert!(unsafe { VERIF_COLLECTED } == (d == 0 && crossed));
+    assert!(vm.no_gc_depth == d);
+    kani::cover!(d == 0 && crossed, "REQ collection outside a region");
+    kani::cover!(d > 0 && crossed, "REQ suppressed inside a region");
+    std::mem::forget(vm);
+}
+
+/// O3: an allocating opcode executed inside a region (depth 1) with the threshold crossed never starts a collection
+macro_rules! c13_step_no_collect {
+    ($name:ident, $step:ident, $op:expr, $pool:expr) => {
+        #[kani::proof]
+        #[kani::stub(std::hash::RandomState::new, stub_random_state)]
+        #[kani::stub(std::fmt::format, stub_format)]
+        #[kani::stub(crate::vm::VM::runtime_error, stub_runtime_error)]
+        #[kani::stub(crate::vm::GlobalLayout::empty, stub_layout_empty)]
+        #[kani::stub(crate::vm::VM::call_cached_native, stub_call_cached_native)]
+        #[kani::stub(crate::vm::VM::ensure_function_verified, stub_ok_verified)]
+        #[kani::stub(crate::vm::VM::prepare_globals_for_function, stub_prepare_globals)]
+        #[kani::stub(crate::vm::VM::sync_current_function_globals, stub_sync_globals)]
+        #[kani::stub(crate::vm::VM::print_value, stub_print_value)]
+        #[kani::stub(crate::vm::VM::collect, stub_collect)]
+        fn $name() {
+            let (mut vm, _pre) = c04_state($pool, |_w: u32| true);
+            vm.heap.verif_set_gc_threshold(kani::any());
+            kani::assume(vm.heap.should_collect());
+            let d: usize = kani::any();
+            kani::assume(d >= 1 && d <= 64);
+            vm.no_gc_depth = d;
+            unsafe { VERIF_COLLECTED = false; }
+            let mut out = None;
+            let r = vm.$step::<{ $op }>(&mut out);
+            assert!(unsafe { !VERIF_COLLECTED });
+            assert!(vm.no_gc_depth == d);
+            kani::cover!(true, "REQ step finished");
+            kani::cover!(r.is_ok() && out.is_some(), "step continues");
+            std::mem::forget(r);
+            std::mem::forget(vm);
+        }
+    };
+}
+c13_step_no_collect!(c13_o3_add_concat, step_arithmetic, 5, POOL_SCALAR);
+c13_step_no_collect!(c13_o3_alloc, step_memory, 28, POOL_MEM);
+c13_step_no_collect!(c13_o3_arraynewi, step_arrays, 130, POOL_COLL);
+c13_step_no_collect!(c13_o3_arraylit, step_arrays, 134, POOL_COLL);
+c13_step_no_collect!(c13_o3_stringforloop, step_control_flow, 177, POOL_COLL);
